@@ -474,11 +474,15 @@ func genC12(t *rapid.T) *C12Case {
 	c := &C12Case{CLI: rapid.IntRange(0, 9).Draw(t, "cli") == 0}
 	var docs []map[string]interface{}
 	var w *World
-	switch rapid.IntRange(0, 2).Draw(t, "ctx") {
-	case 0:
+	switch rapid.IntRange(0, 6).Draw(t, "ctx") {
+	case 0, 1:
 		w = GenWorld(t, GenCfg{Admin: true, MaxWl: 3, MaxNP: 2, MaxANP: 2})
-	case 1:
+	case 2, 3:
 		w = GenIngressWorld(t, false)
+	case 4:
+		// every workload protected by IP-block-only policies: reports with empty sections
+		w = GenWorld(t, GenCfg{MaxWl: 3, MaxNP: 1})
+		SealWorld(t, w)
 	default:
 		w = GenWorld(t, GenCfg{MaxWl: 3, MaxNP: 2})
 	}
@@ -601,10 +605,23 @@ func checkC12(c *C12Case, st *VStats) *VFailure {
 				res.f = &VFailure{Msg: "panic in " + sig + "\nmutations: " + strings.Join(c.Desc, " ; ")}
 			}
 		}
-		rec(guardCall("list", func() { listRaw(dir, false, "txt") }))
-		rec(guardCall("list -o dot", func() { listRaw(dir, false, "dot") }))
-		rec(guardCall("list --exposure", func() { listRaw(dir, true, "dot") }))
-		rec(guardCall("list --exposure txt", func() { listRaw(dir, true, "txt") }))
+		// every format with and without exposure (the formatters differ in what they do with empty sections)
+		for _, f := range listFormats {
+			f := f
+			rec(guardCall("list -o "+f, func() { listRaw(dir, false, f) }))
+			rec(guardCall("list --exposure -o "+f, func() { listRaw(dir, true, f) }))
+		}
+		// options meeting in one invocation: focus (a workload of the input, or the reserved name) + exposure + format
+		foc := "ingress-controller"
+		if len(c.EvalPods) > 0 {
+			_, foc, _ = strings.Cut(c.EvalPods[0], "/")
+		}
+		for _, f := range []string{"json", "dot"} {
+			f := f
+			rec(guardCall("list --exposure --focusworkload "+foc+" -o "+f, func() { listRawFocus(dir, true, f, foc, false) }))
+		}
+		rec(guardCall("list --focusworkload ingress-controller", func() { listRawFocus(dir, false, "txt", "ingress-controller", false) }))
+		rec(guardCall("list --exposure (stop on error) -o md", func() { listRawFocus(dir, true, "md", "", true) }))
 		rec(guardCall("diff(mutated, base)", func() { diffRaw(dir, base) }))
 		rec(guardCall("diff(base, mutated)", func() { diffRaw(base, dir) }))
 		rec(guardCall("eval", func() {
